@@ -1196,18 +1196,13 @@ void IGXMLScanner::scanReset(const InputSource& src)
     if(getPSVIHandler())
         fModel = fGrammarResolver->getXSModel();
 
-    {
-        XMLDTDDescriptionImpl   theDTDDescription(XMLUni::fgDTDEntityString, fMemoryManager);
-        fDTDGrammar = (DTDGrammar*) fGrammarResolver->getGrammar(&theDTDDescription);
-    }
-
-    if (!fDTDGrammar) {
-
-        fDTDGrammar = new (fGrammarPoolMemoryManager) DTDGrammar(fGrammarPoolMemoryManager);
-        fGrammarResolver->putGrammar(fDTDGrammar);
-    }
-    else
-        fDTDGrammar->reset();
+    //  Always work on a DTD grammar of our own. A grammar that an earlier
+    //  parse left in the grammar pool under the default key must not be
+    //  emptied and filled again here: the pool may be locked, or shared with
+    //  parsers running in other threads. The pool refuses a second grammar
+    //  with that key, so this one stays with the resolver.
+    fDTDGrammar = new (fGrammarPoolMemoryManager) DTDGrammar(fGrammarPoolMemoryManager);
+    fGrammarResolver->putGrammar(fDTDGrammar);
 
     fGrammar = fDTDGrammar;
     fGrammarType = fGrammar->getGrammarType();
